@@ -254,6 +254,13 @@ def run(ctx):
     cases = uniq
     obs = C.run_impl(impl_case, [c[1] for c in cases], ctx["rundir"], limit=5.0 if tier == "quick" else 10.0,
                      env_extra={"MPLBACKEND": "Agg"})
+    # an input that did not return within the limit gets a second, much longer chance on its own before it is called a
+    # hang (the workers share the machine with whatever else is running)
+    slow = [i for i, o in enumerate(obs) if o.get("hung") and cases[i][2] and small_input(cases[i][1]) and "10^30" not in cases[i][1]]
+    if slow:
+        again = C.run_impl(impl_case, [cases[i][1] for i in slow], ctx["rundir"], limit=60.0, env_extra={"MPLBACKEND": "Agg"}, chunksize=1, procs=min(8, len(slow)))
+        for i, o in zip(slow, again):
+            obs[i] = o
     hist, fam, nontrivial, samples, markers = {}, {}, 0, [], 0
     slow_examples = []
     for (family, text, strict), o in zip(cases, obs):
